@@ -722,18 +722,29 @@ theorem roundtrip_function_partial (W : List String) (fn : FnDef) (hwf : WFFn W 
   obtain ⟨N, h⟩ := fn_reads W fn hwf rest hsafe
   exact ⟨N, h N (Nat.le_refl _)⟩
 
-/-- **roundtrip_struct_partial.** For every struct definition tree — name and any number of entries, each a member
+/-- **roundtrip_struct_partial.** For every struct definition tree — name, any number of base types (modifiers, name,
+template arguments; printed as ` : A, B<…>` since 2e907a1 — before that the formatter dropped them) and any number of
+entries, each a member
 variable definition with attributes (`roundtrip_decl_partial`) or a method (`roundtrip_function_partial`; the model of
 `parse_struct_entry` tries the member reading first, which is shown to fail on a method: after the name comes `(`) — the
 printed tokens followed by `rest` are read back by the model of `parse_struct_definition` as the same tree.
-Partial — `WFStruct`: `WFVarDef` / `WFFn` of the entries; not in the tree type: template parameters, base types (printed
-since 2e907a1; reached by the correspondence run `source-modules` only), member semantics / packoffsets. -/
+Partial — `WFStruct`: `WFBase` of the base types (name no modifier word, `WFTArgs`), `WFVarDef` / `WFFn` of the entries;
+not in the tree type: template parameters, member semantics / packoffsets. -/
 theorem roundtrip_struct_partial (W : List String) (s : StructDef) (hwf : WFStruct W s) (rest : List Tok)
-    (hsafe : hasLtMembers s.members = true → TmplFree (toks (fmtStruct s) ++ rest) = true) :
+    (hsafe : (hasLtBases s.bases || hasLtMembers s.members) = true → TmplFree (toks (fmtStruct s) ++ rest) = true) :
     ∃ fuel, parseStruct W fuel (toks (fmtStruct s) ++ rest) = .ok s rest := by
   rw [toks_fmtStruct] at hsafe ⊢
   obtain ⟨N, h⟩ := struct_reads W s hwf rest hsafe
   exact ⟨N, h N (Nat.le_refl _)⟩
+
+/-- `struct P : S { };` with a base type reads back with it (was the known finding "base types are not printed") -/
+theorem struct_base_types_roundtrip :
+    toks (fmtStruct ⟨"P", [([], "S", .nil), ([], "T", .cons (.both (.id "U") (.mk [] "U" .nil .empty)) .nil)], []⟩) =
+      [.p .Struct, .id "P", .p .Colon, .id "S", .p .Comma, .id "T", .lt true, .id "U", .gt false, .p .LeftBrace,
+       .p .RightBrace, .p .Semicolon] ∧
+    parseStruct [] 40 (toks (fmtStruct ⟨"P", [([], "S", .nil), ([], "T", .cons (.both (.id "U") (.mk [] "U" .nil .empty)) .nil)], []⟩) ++ [.p .Eof]) =
+      .ok ⟨"P", [([], "S", .nil), ([], "T", .cons (.both (.id "U") (.mk [] "U" .nil .empty)) .nil)], []⟩ [.p .Eof] := by
+  refine ⟨by decide, by rfl⟩
 
 /-- `void f(int a = (x, y));` -/
 def defaultCommaFn : FnDef :=
@@ -776,13 +787,18 @@ theorem sampleFn_wf : WFFn ["vector", "float4", "S", "uint", "float", "float4x4"
 example : ∃ fuel, parseFn ["vector", "float4", "S", "uint", "float", "float4x4"] fuel (toks (fmtFn sampleFn) ++ [.p .Eof]) = .ok sampleFn [.p .Eof] :=
   roundtrip_function_partial _ sampleFn sampleFn_wf _ (fun _ => by decide +kernel)
 
-/-- non-vacuity: a struct with two member definitions (one with attribute and two declarators) and a method -/
+/-- non-vacuity: a struct with two base types (one with a template argument), two member definitions (one with attribute
+and two declarators) and a method -/
 def sampleStruct : StructDef :=
-  ⟨"P", [.var [] ⟨[], "float4", .nil, [⟨.name "pos", none⟩]⟩,
+  ⟨"P", [([], "Base", .nil), ([], "Mixin", .cons (.e (.lit ⟨.IntUntyped, false, 4⟩)) .nil)],
+        [.var [] ⟨[], "float4", .nil, [⟨.name "pos", none⟩]⟩,
          .var [⟨"a", .nil, true⟩] ⟨[.RowMajor], "float4x4", .nil, [⟨.name "m", none⟩, ⟨.arr (.name "k") (.lit ⟨.IntUntyped, false, 2⟩), none⟩]⟩,
          .method sampleFn]⟩
 
 theorem sampleStruct_wf : WFStruct ["vector", "float4", "S", "uint", "float", "float4x4"] sampleStruct := by
+  refine ⟨fun b hb => ?_, ?_⟩
+  · simp only [sampleStruct, List.mem_cons, List.not_mem_nil, or_false] at hb
+    rcases hb with rfl | rfl <;> simp [WFBase, WFTArgs, WFArg, RsslVerif.Lemmas.RoundtripFull.WF] <;> decide
   intro m hm
   simp only [sampleStruct, List.mem_cons, List.not_mem_nil, or_false] at hm
   rcases hm with rfl | rfl | rfl
